@@ -27,8 +27,12 @@ def explore(res, rng, n):
         c = [float(rng.choice([-3, -2, -1, 1, 2, 3])) for _ in range(d)]
         R = random_corr(rng, d) if (d > 1 and rng.random() < 0.7) else np.eye(d)
         if i < 2 and d >= 3:
-            # corpus: sparse correlation, a zero entry before a non-zero one in the first row
+            # corpus: sparse correlation, a zero entry before a non-zero one in the first row; off-diagonal entries that cancel
             R = np.eye(d); R[0, 2] = R[2, 0] = 0.5; R[1, 2] = R[2, 1] = 0.3
+            if i == 1:
+                R = np.eye(d); R[0, 1] = R[1, 0] = 0.5; R[0, 2] = R[2, 0] = -0.5
+                sig = [1.0, 2.0, 0.5, 1.0][:d] + [1.0] * (d - 4)          # (so that the cross terms do not cancel in Var[g])
+                c = [1.0, 2.0, 3.0, -1.0][:d] + [1.0] * (d - 4)
         res.stat('corr_identity' if np.allclose(R, np.eye(d)) else ('corr_sparse' if np.any(np.array(R) == 0) else 'corr_dense'))
         Sigma = np.diag(sig) @ R @ np.diag(sig)
         sd = math.sqrt(float(np.array(c) @ Sigma @ np.array(c)))
